@@ -678,3 +678,33 @@ func init() {
 		return nil
 	}
 }
+
+// ---- github.com/pkg/errors (captures stack traces with runtime.Callers)
+
+func init() {
+	const pe = "github.com/pkg/errors"
+	natives[pe+".New"] = func(m *Machine, c *frame, fn *ssa.Function, a []Value) Value { return m.newErrorString(a[0]) }
+	natives[pe+".Errorf"] = stubErrorf
+	wrap := func(m *Machine, c *frame, fn *ssa.Function, a []Value) Value {
+		err, _ := a[0].(Iface)
+		if err.T == nil {
+			return Iface{}
+		}
+		msg := m.term(a[1])
+		inner := m.term(m.invokeMethod(c, err, "Error"))
+		return m.newErrorString(sym.Concat(sym.Concat(msg, sym.Str(": ")), inner))
+	}
+	natives[pe+".Wrap"] = wrap
+	natives[pe+".WithMessage"] = wrap
+	natives[pe+".Wrapf"] = func(m *Machine, c *frame, fn *ssa.Function, a []Value) Value {
+		err, _ := a[0].(Iface)
+		if err.T == nil {
+			return Iface{}
+		}
+		msg := m.term(m.sprintf(m.term(a[1]), a[2].([]Value)))
+		inner := m.term(m.invokeMethod(c, err, "Error"))
+		return m.newErrorString(sym.Concat(sym.Concat(msg, sym.Str(": ")), inner))
+	}
+	natives[pe+".WithStack"] = func(m *Machine, c *frame, fn *ssa.Function, a []Value) Value { return a[0] }
+	natives[pe+".Cause"] = func(m *Machine, c *frame, fn *ssa.Function, a []Value) Value { return a[0] }
+}
